@@ -107,4 +107,7 @@ class Timer:
         self.start()
 
     def _unset_task(self, task: asyncio.Future):
-        self._task = None
+        # A task that was cancelled or superseded by reschedule() completes
+        # after the new task has been stored: only unset our own task
+        if self._task is task:
+            self._task = None
